@@ -29,6 +29,9 @@ CHECKS = {
  "C13": dict(cat="exploration", tech="crash monitor + canary connection over generated hostile byte streams, child process per batch (inputs logged before sending)",
     text="20 000 (quick) / 2 000 000 (thorough) PRNG byte streams from four generators (structurally valid frames of every command type with arbitrary fields and arbitrary / inconsistent value frames incl. every length 0..64, nested pipelines and executes; every registered text command with 0-8 dictionary/numeric/binary arguments; mutated streams; random streams) are delivered whole, 2-way split or k-way split to the real Server.handle over in-memory connections. The oracle is: the server process stays alive and a canary binary + text connection opened before the batch keeps getting exactly the expected replies. A crash is attributed to the logged input and classified by top repository frame + panic class. Eight crash classes found on the original tree were repaired (see known_findings.json).",
     note="SHUTDOWN, FLUSHDB/FLUSHALL, SLAVEOF, REPLSET, CONFIG SET, CLIENT KILL are never sent (they stop / reconfigure the node or kill connections by design). net.Pipe connections; canary watchdog 20 s wall time.", ref="3/C13"),
+ "C14": dict(cat="exploration", tech="differential / round-trip monitor over generated frames, argument lists and every chunking class, against an independent field-offset table and the real server front-ends",
+    text="50 000 (quick) / 5 000 000 (thorough) PRNG cases over: encode->decode->encode of all 12 command types and their results against an independent README offset table (every field, CALL names 0..38 bytes, value frames with properties); decode->encode of arbitrary 64-byte inputs (defined bytes compared); TextParser request/response streams of 1-3 commands (binary-safe, empty arguments, up to 64 KiB) under whole / every-edge / random k-way chunkings and BuildRequest/BuildResponse round trips; the same LOCK/UNLOCK sent as text and as binary frame to the real server (effect read from the census, result fields compared; keys/ids of length 0..64 against an independent normaliser); the server's hand-inlined lock decoder / result encoder vs the protocol package; a text rendering for every result code. Four defects repaired (see known_findings.json).",
+    note="Request lists have >=1 element (a command name): the empty list '*0' carries no command and is rejected by the parser. The protocol sniffing of the first 64 bytes of a connection (first read shorter than 64 bytes -> text) is not part of the statement; it is counted in the evidence, not judged.", ref="3/C14"),
  "C15": dict(cat="exploration", tech="reference-model monitor: sequential value interpreter vs the value frames carried by every reply (E1 virtual-clock engine)",
     text="On the C01 engine, 70% of the lock / re-lock / update / unlock requests of several LockIds of a key carry a type-consistent value operation (SET, UNSET, INCR incl. overflow, APPEND, SHIFT and POP beyond length, PUSH, PIPELINE, with and without property headers); every reply's value frame must equal the value a sequential reference interpreter computed before the operation, refused requests must leave it unchanged, show-queries observe it in between. One defect repaired (SHIFT beyond length crashed), one recorded as open known finding (multi-operation PIPELINE re-bases).",
     note="Type-consistent sequences only; property contents not compared; the value of a key that is not held is outside the property. Redis-style text commands are not yet covered by this check.", ref="3/C15"),
